@@ -36,7 +36,8 @@ package plugin
 
 //@ func (*SecureConfig).Check
 //@   nopanic [C13.total]
-//@   nonblocking
+//@   bounded always [C01.e]
+//@   wait call io.Copy#1 reads a regular local file into a hash: bounded by the file's size
 //@   modifies hdata, open_files, rd_done
 //@   ensures len(s.Checksum) == 0 ==> result0 == false && result1 == ErrSecureConfigNoChecksum   [C13.err]
 //@   ensures len(s.Checksum) != 0 && s.Hash == nil ==> result0 == false && result1 == ErrSecureConfigNoHash   [C13.err]
@@ -151,7 +152,7 @@ package plugin
 
 //@ func NewRPCClient
 //@   nopanic [C03.d]
-//@   nonblocking
+//@   bounded peer-dead [C03.c]
 //@   requires conn != nil
 //@   modifies yopens, yaccepts
 //@   loop#1 frame fresh_only
@@ -597,6 +598,7 @@ package plugin
 
 //@ func serve
 //@   nopanic [C06.total]
+//@   bounded peer-dead [C09.timer]
 //@   modifies nothing
 //@   at call (*rpc.Server).RegisterName#1 assert arg0 == name && arg1 == v   [C06.disp]
 //@   at call (*rpc.Server).ServeConn#1 assert arg0 == conn   [C06.disp]
@@ -614,9 +616,10 @@ package plugin
 //@   ensures result == nil ==> *response == d.broker.nextId && d.broker.nextId == (old(d.broker.nextId) + 1) % 4294967296   [C06.disp]
 
 //@ func (*dispenseServer).Dispense$1
+//@   spawn_inline
 //@   nopanic [C06.total]
+//@   bounded peer-dead [C09.timer]
 //@   requires d != nil && d.broker != nil && !held(d.broker.Mutex)   [nospawn]
-//@   modifies heap, pkey, ch_owner, tokens, conns_open, firstw
 //@   after call (*MuxBroker).Accept#1 bind acc: Iface := ret0
 //@   at call (*MuxBroker).Accept#1 assert recv == d.broker && arg0 == id   [C06.disp]
 //@   at call serve#1 assert arg0 == acc && arg1 == "Plugin" && arg2 == impl   [C06.disp]
